@@ -507,10 +507,12 @@ def coq_streams(ss):
     return "[" + "; ".join("[" + "; ".join("(%s, %d)" % (coq_list(k), v) for (k, v) in st) + "]" for st in ss) + "]"
 
 
-C05_OPS = {"union": ("spec_union", "run_union %s"), "intersection": ("spec_sel OpInter", "run_sel %s OpInter"),
-           "symdiff": ("spec_sel OpSymdiff", "run_sel %s OpSymdiff"), "difference": ("spec_difference", "run_difference %s")}
-C05_PREDS = {"disjoint": ("spec_disjoint", "is_disjoint pop_min_left"), "subset": ("spec_subset", "is_subset pop_min_left %d"),
-             "superset": ("spec_superset", "is_superset pop_min_left %d")}
+# the model runs are evaluated over the NON-INERT streams [poisoned s] (like the driver does); besides the items they
+# return, per stream, (polls, polls after its None); the sum of the second components is the "|repoll=" of M
+C05_OPS = {"union": ("spec_union", "run_union_on %s"), "intersection": ("spec_sel OpInter", "run_sel_on %s OpInter"),
+           "symdiff": ("spec_sel OpSymdiff", "run_sel_on %s OpSymdiff"), "difference": ("spec_difference", "run_difference_on %s")}
+C05_PREDS = {"disjoint": ("spec_disjoint", "is_disjoint_on pop_min_left"), "subset": ("spec_subset", "is_subset_on pop_min_left %d"),
+             "superset": ("spec_superset", "is_superset_on pop_min_left %d")}
 
 
 def elig_c05(case, model):
@@ -523,16 +525,19 @@ def elig_c05(case, model):
 def emit_c05(n, case, impl):
     op, _, st = case.split("\t")
     ss = c05_streams(st)
-    defs = ["Definition s%d : list (list kv) := %s." % (n, coq_streams(ss))]
+    defs = ["Definition s%d : list (list kv) := %s." % (n, coq_streams(ss)),
+            "Definition x%d : list instream := map poisoned s%d." % (n, n)]
     if op in C05_OPS:
         spec, run = C05_OPS[op]
-        l, r = "(%s s%d)" % (run % "pop_min_left", n), "(%s s%d)" % (run % "pop_min_right", n)
-        cn = "(fun x : fres (list item) => match x with Some (Ok l) => Some (Ok (canon l)) | y => y end)"
+        l, r = "(%s x%d)" % (run % "pop_min_left", n), "(%s x%d)" % (run % "pop_min_right", n)
+        cn = ("(fun x : fres (list item * list (nat * nat)) => match x with Some (Ok (l, _)) => Some (Ok (canon l)) "
+              "| Some (Err e) => Some (Err e) | Some Panic => Some Panic | None => None end)")
         return defs, "%s s%d" % (spec, n), "(%s, %s, %s %s, %s %s)" % (l, r, cn, l, cn, r)
     spec, run = C05_PREDS[op]
     run = run % len(ss[0]) if "%d" in run else run
     a, b = "(nth 0 s%d [])" % n, "(nth 1 s%d [])" % n
-    return defs, "%s %s %s" % (spec, a, b), "%s %s %s" % (run, a, b)
+    xa, xb = "(poisoned %s)" % a, "(poisoned %s)" % b
+    return defs, "%s %s %s" % (spec, a, b), "%s %s %s" % (run, xa, xb)
 
 
 def show_items(l):
@@ -562,16 +567,24 @@ def show_fres(r, show):
     return show(x.args[0])
 
 
+def c05_repoll(r):
+    """"|repoll=<sum of the polls after None>" of a finished run, "" otherwise"""
+    if r == "None" or not is_app(r.args[0], "Ok"):
+        return ""
+    return "|repoll=%d" % sum(again for (_, again) in r.args[0].args[0][1])
+
+
 def render_c05(case, impl, s, m):
     op, _, st = case.split("\t")
     if op in C05_OPS:
         m1, m2, c1, c2 = m
-        sh = lambda r: show_fres(r, lambda l: show_items([(k, tie_canon(o)) for (k, o) in l]))
+        sh = lambda r: show_fres(r, lambda lp: show_items([(k, tie_canon(o)) for (k, o) in lp[0]]))
         cs = lambda r: show_fres(r, show_items)
         a, b = sh(m1), sh(m2)
         stxt = "PANIC" if op == "difference" and c05_streams(st) == [] else show_items(s)
-        return stxt, a + ("" if a == b and cs(c1) == cs(c2) else "!TIE")
-    return s, show_fres(m, lambda b: b)
+        r1, r2 = c05_repoll(m1), c05_repoll(m2)
+        return stxt, a + ("" if a == b and cs(c1) == cs(c2) else "!TIE") + (r1 if r1 == r2 else r1 + "!" + r2)
+    return s, show_fres(m, lambda bp: bp[0]) + c05_repoll(m)
 
 
 # ---- c08 / c20: CRC and Fst::new / verify on arbitrary bytes ----
